@@ -3,7 +3,8 @@
      - joins with EVERY reference that carries a non-file scheme, incl. the special scheme of the base followed by
        fewer than two slashes ("http:x" against an http base: C02_Ovr.join_same_Canon_g).
    ReachC6: parse (no base, non-file scheme, any override) ;; joins with every reference that has no scheme or a
-   non-file scheme (any override) ;; every operation of the setter model outside known_step3 ;; query_pairs_mut
+   non-file scheme (any override) ;; joins of ANY Reachable4 record - file records included - with a base-ignoring
+   absolute reference ;; every operation of the setter model outside known_step3 ;; query_pairs_mut
    sessions.  Every record of such a history is Canon, hence a fixpoint of re-parsing; ReachC6 is inside Reachable4.
    What Reachable4 has beyond ReachC6 is the file scheme only. *)
 From RU Require Import Proofs.C15_Ser.
@@ -49,6 +50,9 @@ Inductive ReachC6 : url -> Prop :=
 | RC6_join_scheme ovr b input u :
     ReachC6 b -> usv_list input -> nonfile_input input = true ->
     parse_url dbg hp hpo hd ovr (Some b) input = POk u -> ReachC6 u
+| RC6_join_abs_any ovr b input u :        (* base-ignoring absolute reference against ANY record of the full quantifier, file bases included *)
+    Reachable4 dbg hp hpo hd b -> usv_list input -> abs_ref b input = true ->
+    parse_url dbg hp hpo hd ovr (Some b) input = POk u -> ReachC6 u
 | RC6_step u o u' :
     ReachC6 u -> op_args_ok o -> known_step3 dbg hp hpo hd u o = false ->
     apply_op dbg hp hpo hd u o = Some u' -> nlen (ser u') <= U32_MAX_P -> ReachC6 u'
@@ -70,10 +74,11 @@ Qed.
 Theorem ReachC6_Canon u : ReachC6 u -> Canon hp hpo hd u.
 Proof using HOK HNE HRT HAb.
   induction 1 as [ovr input u Hu Hn Hp | ovr b input u Hr IH Hu Ht Hp | ovr b input u Hr IH Hu Ht Hp
-                 | u o u' Hr IH Ha Hk Ho Hb | u ops u' Hr IH Hops Hs Hb].
+                 | ovr b input u Hr Hu Ht Hp | u o u' Hr IH Ha Hk Ho Hb | u ops u' Hr IH Hops Hs Hb].
   - exact (parse_Canon_g dbg hp hpo hd HRT HAb ovr input u Hu Hn Hp).
   - exact (join_rel_Canon_g dbg hp hpo hd HRT HAb ovr b input u IH Hu Ht Hp).
   - exact (join_nonfile_Canon_g dbg hp hpo hd HRT HAb ovr b input u IH Hu Ht Hp).
+  - exact (join_abs_Canon_g dbg hp hpo hd HRT HAb ovr b input u Hu Ht Hp).
   - exact (canon_step_all dbg hp hpo hd HOK HNE u o u' IH Ha Hk Ho Hb).
   - exact (qpm_Canon dbg hp hpo hd HRT u ops u' IH Hops Hs Hb).
 Qed.
@@ -91,13 +96,15 @@ Qed.
 Theorem ReachC6_Reachable4 u : ReachC6 u -> Reachable4 dbg hp hpo hd u.
 Proof using HOK HNE HRT HAb.
   intros H. induction H as [ovr input u Hu Hn Hp | ovr b input u Hr IH Hu Ht Hp | ovr b input u Hr IH Hu Ht Hp
-                           | u o u' Hr IH Ha Hk Ho Hb | u ops u' Hr IH Hops Hs Hb].
+                           | ovr b input u Hr Hu Ht Hp | u o u' Hr IH Ha Hk Ho Hb | u ops u' Hr IH Hops Hs Hb].
   - apply (R4_parse dbg hp hpo hd ovr input u Hu Hp).
     apply (Canon_not_file_drive hp hpo hd). apply ReachC6_Canon. exact (RC6_parse ovr input u Hu Hn Hp).
   - apply (R4_join dbg hp hpo hd ovr b input u IH Hu Hp).
     apply (Canon_not_file_drive hp hpo hd). apply ReachC6_Canon. exact (RC6_join_rel ovr b input u Hr Hu Ht Hp).
   - apply (R4_join dbg hp hpo hd ovr b input u IH Hu Hp).
     apply (Canon_not_file_drive hp hpo hd). apply ReachC6_Canon. exact (RC6_join_scheme ovr b input u Hr Hu Ht Hp).
+  - apply (R4_join dbg hp hpo hd ovr b input u Hr Hu Hp).
+    apply (Canon_not_file_drive hp hpo hd). apply ReachC6_Canon. exact (RC6_join_abs_any ovr b input u Hr Hu Ht Hp).
   - apply (R4_step dbg hp hpo hd u o u' IH Ha Hk Ho).
     apply (Canon_not_file_drive hp hpo hd). apply ReachC6_Canon. exact (RC6_step u o u' Hr Ha Hk Ho Hb).
   - apply (R4_qpm dbg hp hpo hd u ops u' IH Hops Hs).
@@ -154,4 +161,12 @@ Example reach6_example :
                  && negb (same_ref bu (B "https:x")) && nonfile_input (B "http:x") && negb (rel_ref (B "http:x"))
                  && file_input (B "file:x") && negb (nonfile_input (B "file:x"))
      | _ => false end = true.
+Proof. vm_compute. repeat split. Qed.
+
+(* a file base and a base-ignoring absolute reference (RC6_join_abs_any): file:///a/b + "https:\\x/y z" = https://x/y%20z *)
+Example reach6_example_filebase :
+  match m_join "file:///a/b" "https:\\x/y z" with
+  | Some u => list_eqb (ser u) (B "https://x/y%20z") && m_fix u | None => false end = true
+  /\ match parse_url true mhp host_parse_opaque host_display None None (B "file:///a/b") with
+     | POk bu => is_file bu && abs_ref bu (B "https:\\x/y z") && negb (Known_file_drive bu) | _ => false end = true.
 Proof. vm_compute. repeat split. Qed.
